@@ -271,6 +271,8 @@ def stage_checks(in_path, out_path, workers, only=None):
         for r in json.load(open(out_path))["results"]:
             done[(r["file"], r["line"], r["op"], r["col"])] = r
     q = queue.Queue()
+    # uniform shifts of the indices that only name hoisted bindings are almost always equivalent: try them last
+    surv.sort(key=lambda m: (m["op"] in ("bidx+1", "eidx+1", "idx+1"), m["id"]))
     for m in surv:
         if (m["file"], m["line"], m["op"], m["col"]) not in done:
             q.put(m)
